@@ -2,7 +2,7 @@
 """Generates MANIFEST.json from checks.json + the static text below (kept in one place so it stays valid)."""
 import json, os
 V = os.path.dirname(os.path.abspath(__file__))
-cfg = json.load(open(os.path.join(V, "checks.json")))
+cfg = {fn[:-5]: json.load(open(os.path.join(V, "checks.d", fn))) for fn in sorted(os.listdir(os.path.join(V, "checks.d"))) if fn.endswith(".json")}
 meta = json.load(open(os.path.join(V, "manifest_meta.json")))
 checks = []
 for cid in sorted(cfg):
